@@ -143,6 +143,22 @@ theorem takeWhile_dropWhile_utf8 (r : List Char) (p : Char → Bool) :
     utf8Len (r.takeWhile p) + utf8Len (r.dropWhile p) = utf8Len r := by
   rw [← utf8Len_append, List.takeWhile_append_dropWhile]
 
+/-- `prefix.iter().rposition(p).map_or(0, |i| i + 1)` is the line start that
+`prefix.iter().rev().position(p).map(|pos| offset - pos).unwrap_or(0)` computes, `offset` being the length of the prefix -/
+theorem rposition_line_begin {α : Type} (l : List α) (p : α → Bool) (off : Nat) (hlen : l.length = off) :
+    Rust.map_or (Rust.rposition l p) 0 (fun newline => newline + 1) =
+      Rust.unwrap_or (Rust.map (Rust.position (Rust.rev l) p) (fun pos => off - pos)) 0 := by
+  simp only [Rust.rposition, Rust.position, Rust.rev, Rust.map, RMap.map, Rust.map_or, Rust.unwrap_or]
+  cases hf : l.reverse.findIdx? p with
+  | none => rfl
+  | some pos =>
+    have hlt : pos < l.reverse.length := by
+      have := List.findIdx?_eq_some_iff_findIdx_eq.mp hf
+      exact this.1
+    simp only [Option.map_some, Option.getD_some]
+    simp at hlt
+    omega
+
 /-- the extracted `location()` returns what the model's `location` returns, wherever the model does not report a
 panic (offset beyond the input or inside a character); that it never does for an error the crate produces is C17 -/
 theorem SemverError_location (e : SemverError) (l c : Nat) (h : e.location = some (l, c)) : e.rs_location = (l, c) := by
@@ -155,11 +171,15 @@ theorem SemverError_location (e : SemverError) (l c : Nat) (h : e.location = som
     obtain ⟨hl, hc⟩ := h
     obtain ⟨hin, hoff⟩ := split_spec _ _ _ _ hs
     unfold SemverError.rs_location
-    simp only [SemverError.rs_offset, Rust.index_to, RIndexTo.index_to, Rust.rev, Rust.position, Rust.ptr_diff]
+    simp only [SemverError.rs_offset, Rust.index_to, RIndexTo.index_to, Rust.ptr_diff]
     have hpre : (as_bytes e.input).take e.offset = as_bytes pre := by
       rw [hin, as_bytes_append, ← hoff, ← as_bytes_length pre, List.take_left']
       rfl
-    rw [hpre, bytecount_eq, as_bytes_reverse, position_rev]
+    rw [hpre]
+    -- the line start written with `rposition`
+    try rw [rposition_line_begin (as_bytes pre) _ e.offset (by rw [as_bytes_length, hoff])]
+    simp only [Rust.rev, Rust.position]
+    rw [bytecount_eq, as_bytes_reverse, position_rev]
     have hfrom : Rust.index_from e.input e.offset = (⟨e.offset, post⟩ : StrSlice) := by
       simp [Rust.index_from, RIndexFrom.index_from, hs]
     by_cases ht : pre.reverse.takeWhile (· != '\n') = pre.reverse
